@@ -73,6 +73,6 @@ NNLSEqualsUncWhenFeasible == (Unc[1][1] >= 0 /\ Unc[2][1] >= 0) => NNLS = Unc
 
 \* the entries of W and b are integers here: the caller may hand them over as float64 or as integer arrays (a hand-typed 0/1
 \* incidence matrix); the minimisers are the same numbers either way
-Reprs == <<"float64", "int64">>
+Reprs == <<"float64", "int64", "fortran">>      \* "fortran": W column-major in memory, b a strided view
 EmitCase == PrintT(ToJson([reprs |-> Reprs, prev_alpha2 |-> IF prev = 0 THEN <<0, 1>> ELSE A2(prev), minnorm |-> MinNorm, scale_exps |-> ScaleExps, rank |-> IF Det0 # 0 THEN 2 ELSE IF Tr0 # 0 THEN 1 ELSE 0, W |-> W, b |-> b, alpha2 |-> A2(al), lstsq |-> Unc, nnls |-> NNLS, obj_lstsq |-> Obj(Unc), obj_nnls |-> Obj(NNLS)]))
 =============================================================================
